@@ -96,4 +96,6 @@ def run(rep):
     tok.run_bmc(rep, core, "diff", b["N"], tok.MODES, (False,), oblig, replay_fn, deadline_s=3000)
     tok.run_bmc(rep, core, "diff", min(b["N"], 6), (0, 6), ("le1",), oblig, replay_fn)
     tok.run_bmc(rep, core, "diff-falsy-frames", min(b["N"], 6), (0,), (False,), oblig, replay_fn, falsy=True)
+    tok.run_bmc(rep, core, "diff-mixed-frame-types", min(b["N"], 6), (0,), (False,), oblig, replay_fn, falsy="mixed")
+    tok.run_bmc(rep, core, "diff-true-or-none-validator", min(b["N"], 6), (0,), (False,), oblig, replay_fn, falsy="none-validator")
     rep.witness("reference and tokenizer agree on paths with >= 2 tokens", True)
